@@ -62,7 +62,10 @@ type c18Run struct {
 	Grace    int64  `json:"grace_ns"`
 	Inst     string `json:"inst"`
 	Faults   []int  `json:"faults,omitempty"`
-	Cancel   int    `json:"cancel"` // -1 = never
+	// EFaults: calls that TAKE EFFECT and then report an error (a time-out after the back-end did the work);
+	// meaningful for Delete and Store, ignored on other calls
+	EFaults []int `json:"efaults,omitempty"`
+	Cancel  int   `json:"cancel"` // -1 = never
 	// Fops: what ANOTHER actor (no storage_clean lock) does to the storage just before call number At
 	// of this run (0 = Lock); Why/Race are the generator's labels
 	Fops []c18Fop `json:"fops,omitempty"`
@@ -120,6 +123,7 @@ type c18Wrap struct {
 	tid      int
 	tr       *c18Trace
 	faults   map[int]bool
+	efaults  map[int]bool
 	cancelAt int
 	cancel   context.CancelFunc
 	n        int
@@ -221,8 +225,13 @@ func (w *c18Wrap) Stat(ctx context.Context, key string) (certmagic.KeyInfo, erro
 }
 
 func (w *c18Wrap) Delete(ctx context.Context, key string) error {
-	_, fault := w.begin()
+	idx, fault := w.begin()
 	if fault {
+		w.tr.add(c18Event{w.tid, 5, key, false})
+		return c18ErrInjected
+	}
+	if w.efaults[idx] {
+		w.inner.Delete(c18Live(ctx), key)
 		w.tr.add(c18Event{w.tid, 5, key, false})
 		return c18ErrInjected
 	}
@@ -232,9 +241,17 @@ func (w *c18Wrap) Delete(ctx context.Context, key string) error {
 }
 
 func (w *c18Wrap) Store(ctx context.Context, key string, value []byte) error {
-	_, fault := w.begin()
+	idx, fault := w.begin()
 	if fault {
 		w.tr.add(c18Event{w.tid, 6, key, false})
+		return c18ErrInjected
+	}
+	if w.efaults[idx] {
+		err := w.inner.Store(c18Live(ctx), key, value)
+		w.tr.add(c18Event{w.tid, 6, key, false})
+		if err != nil {
+			return err
+		}
 		return c18ErrInjected
 	}
 	err := w.inner.Store(c18Live(ctx), key, value)
@@ -564,9 +581,12 @@ func (m *c18Mat) execute(spec c18Spec) *c18Exec {
 	}
 	mk := func(i int) *c18Wrap {
 		r := spec.Runs[i]
-		w := &c18Wrap{inner: be.storage(), tid: i, tr: tr, faults: map[int]bool{}, cancelAt: r.Cancel, gateAt: -1}
+		w := &c18Wrap{inner: be.storage(), tid: i, tr: tr, faults: map[int]bool{}, efaults: map[int]bool{}, cancelAt: r.Cancel, gateAt: -1}
 		for _, f := range r.Faults {
 			w.faults[f] = true
+		}
+		for _, f := range r.EFaults {
+			w.efaults[f] = true
 		}
 		if len(r.Fops) > 0 {
 			w.foreign = func(idx int) {
@@ -818,6 +838,9 @@ func (ex *c18Exec) encode() (wire string, obs map[string]any, feats map[string]s
 			e.Int(cidx[c])
 		}
 	}
+	if len(tbl) >= 1000 || len(vals) >= 990 {
+		panic("c18 wire: key / value table too large for the packed entries")
+	}
 	e.Len(len(vals))
 	for _, v := range vals {
 		e.Bool(v.fresh)
@@ -840,7 +863,7 @@ func (ex *c18Exec) encode() (wire string, obs map[string]any, feats map[string]s
 			if !n.Dir {
 				v = vidx[sha256.Sum256(n.Val)]
 			}
-			e.Int(id(k)*100000 + v + 2)
+			e.Int(id(k)*1000 + v + 2)
 		}
 	}
 	encStore(ex.before)
@@ -851,6 +874,10 @@ func (ex *c18Exec) encode() (wire string, obs map[string]any, feats map[string]s
 		pstr(rs.Inst)
 		e.Len(len(rs.Faults))
 		for _, f := range rs.Faults {
+			e.Int(f)
+		}
+		e.Len(len(rs.EFaults))
+		for _, f := range rs.EFaults {
 			e.Int(f)
 		}
 		if rs.Cancel < 0 {
@@ -879,7 +906,7 @@ func (ex *c18Exec) encode() (wire string, obs map[string]any, feats map[string]s
 		if ev.OK {
 			ok = 1
 		}
-		e.Int((ev.Tid*16+ev.Kind*2+ok)*100000 + id(ev.Key))
+		e.Int((ev.Tid*16+ev.Kind*2+ok)*1000 + id(ev.Key))
 	}
 	encStore(ex.after)
 
@@ -991,6 +1018,9 @@ func (g *c18Gen) site(items *[]c18Item, hist func(string), backend, issuer, site
 			if g.r.Intn(2) == 0 {
 				add(dir+f, "raw", 0, "foreign "+f, "")
 			}
+		}
+		if g.r.Intn(2) == 0 { // an expired certificate in a file whose name merely ends in "crt": not an X.crt
+			add(dir+"archive-crt", "cert", g.certOff("expired_ge_grace", grace), "", "")
 		}
 		if g.r.Intn(2) == 0 { // path.Ext is case-sensitive: an expired certificate in X.CRT is not looked at
 			add(dir+"other.CRT", "cert", g.certOff("expired_ge_grace", grace), "", "")
@@ -1436,6 +1466,32 @@ func c18Corpus() []struct {
 			}{c.class, c18Spec{Backend: "fs", Items: base, Runs: []c18Run{rr}}})
 		}
 	}
+	// the Delete of an emptied site folder fails (call 10): deleteExpiredCerts returns; the next site is not
+	// visited in this run, the record is still written
+	{
+		its := append(full("iss", "a-dead.example", -30*day), full("iss", "b-dead.example", -40*day)...)
+		r := c18Run{Certs: true, Grace: 0, Cancel: -1, Inst: "corpus", Faults: []int{10}}
+		out = append(out, struct {
+			class string
+			spec  c18Spec
+		}{"corpus_folder_delete_fails", c18Spec{Backend: "fs", Items: its, Runs: []c18Run{r}}})
+		// the same Delete takes effect but reports an error (a time-out after the fact): the folder is gone,
+		// deleteExpiredCerts returns all the same
+		r2 := c18Run{Certs: true, Grace: 0, Cancel: -1, Inst: "corpus", EFaults: []int{10}}
+		out = append(out, struct {
+			class string
+			spec  c18Spec
+		}{"corpus_folder_delete_effect_then_error", c18Spec{Backend: "fs", Items: its, Runs: []c18Run{r2}}})
+		// the Store of the record takes effect but reports an error: CleanStorage returns the error, the record
+		// is there; a second cleaning within the interval skips
+		one := full("iss", "a-dead.example", -30*day)
+		r3 := c18Run{Certs: true, Grace: 0, Cancel: -1, Inst: "corpus", EFaults: []int{11}}
+		r4 := c18Run{Certs: true, OCSP: true, Grace: 0, Cancel: -1, Inst: "second", Interval: int64(2 * time.Hour)}
+		out = append(out, struct {
+			class string
+			spec  c18Spec
+		}{"corpus_record_effect_then_error", c18Spec{Backend: "fs", Items: one, Runs: []c18Run{r3, r4}}})
+	}
 	// two concurrent cleaners, second one must wait and then skip / clean again
 	items := append(full("iss", "dead.example", -30*day), full("iss", "live.example", 30*day)...)
 	items = append(items, c18Item{Key: "ocsp/a-2", Kind: "staple", Off: -3600})
@@ -1588,19 +1644,40 @@ func runC18(tier string, seed int64, outdir string, replay string) error {
 			}
 			byKind := map[int][]int{}
 			var kinds []int
+			listed := map[string]bool{}
 			for j, ev := range own {
-				if len(byKind[ev.Kind]) == 0 {
-					kinds = append(kinds, ev.Kind)
+				k := ev.Kind
+				// finer kinds where the code branches on the outcome: 7 = Delete of an emptied site folder (follows
+				// its Stat), 8 = second listing of a site folder, 9 = Delete of X.key / X.json (follows a Delete)
+				switch {
+				case k == 5 && j > 0 && own[j-1].Kind == 4:
+					k = 7
+				case k == 3 && listed[ev.Key]:
+					k = 8
+				case k == 5 && j > 0 && own[j-1].Kind == 5:
+					k = 9
 				}
-				byKind[ev.Kind] = append(byKind[ev.Kind], j)
+				if ev.Kind == 3 {
+					listed[ev.Key] = true
+				}
+				if len(byKind[k]) == 0 {
+					kinds = append(kinds, k)
+					if k == 4 || k >= 7 { // the rarer branch points three times as likely
+						kinds = append(kinds, k, k)
+					}
+				}
+				byKind[k] = append(byKind[k], j)
 			}
 			if len(kinds) > 0 {
 				k := kinds[g.r.Intn(len(kinds))]
 				at := byKind[k][g.r.Intn(len(byKind[k]))]
-				name := []string{"Lock", "Unlock", "Load", "List", "Stat", "Delete", "Store"}[k]
+				name := []string{"Lock", "Unlock", "Load", "List", "Stat", "Delete", "Store", "FolderDelete", "SecondList", "RelatedDelete"}[k]
 				if g.r.Intn(4) == 0 && at > 0 {
 					sp.Runs[0].Cancel = at
 					w.Hist("env=aimed_cancel:" + name)
+				} else if (k == 5 || k == 6 || k == 7 || k == 9) && g.r.Intn(2) == 0 {
+					sp.Runs[0].EFaults = []int{at} // the call takes effect, then reports an error
+					w.Hist("env=aimed_efault:" + name)
 				} else {
 					sp.Runs[0].Faults = []int{at}
 					w.Hist("env=aimed_fault:" + name)
